@@ -424,9 +424,10 @@ def trace_fields(S, cls, names, lock_attr):
             return lk is None or getattr(lk, "owner", None) is not me
 
         def fget(obj):
+            v = obj.__dict__[slot]
             if unprotected(obj):
-                S.yield_(("fld_read", name))
-            return obj.__dict__[slot]
+                S.yield_(("fld_read", name))     # switched away with the value just read in hand (check-then-act, read-modify-write)
+            return v
 
         def fset(obj, value):
             # every write is a scheduling point (also under the lock): an UNPROTECTED reader elsewhere may look at the
